@@ -260,6 +260,7 @@ func runC07(c *Ctx, tier string) {
 			c.Fail("C07-D4", "mergeFilters", fn.Pos(), "mergeFilters no longer builds a binary `and` of the two predicates")
 		}
 	}
+	runNullsFirstSortNotPropagated(c, "C07-N3")
 }
 
 func fnParams(p *Prog, fn *ssa.Function) []string {
